@@ -375,7 +375,7 @@ func keyChecks(m *mon.M, p *pool) {
 // ---- authorized_keys files ----------------------------------------------------------------
 
 func authFileCase(m *mon.M, p *pool, i int64, r *rand.Rand) {
-	witness := i%16 == 0
+	witness := (i/32)%16 == 0 // blocks of 32 consecutive cases: spread evenly over 8 or 16 batches
 	n := 1 + r.IntN(10)
 	ls := make([]lineSpec, n)
 	for j := range ls {
